@@ -529,6 +529,10 @@ def check(pid, tier, seed, replay=None):
         first = parse_kv(unknown_pf[0])
         rp = write_replay(pid, tier, seed, 'propfail', {
             'failing': unknown_pf[:20], 'first': first, 'count': len(unknown_pf),
+            # what else no longer checks on this tree (the failing input above is the replay of record)
+            'also_broken': ([] if hok else ['corr:build']) + (['corr:facts'] if facts_failed else []) +
+                           ([] if lean['ok'] else ['proof:' + ','.join(n for n in lean['theorems'] if n not in lean['discharged'])[:400]]) +
+                           (['tie:' + ','.join(tie_lost)] if tie_lost else []) + (['tie:lemmas'] if lean.get('tie_ok') is False else []),
             'how': 'VERIF_SEED=%s ./check %s --tier %s  (case %s)' % (seed, pid, tier, first.get('case'))})
         violations.append((rp, ''))
     else:
